@@ -351,7 +351,10 @@ class ProgGen:
             elif self.cfg.max_depth > 1:
                 body.append(self.if_(self.cfg.max_depth - 1, False, False))
         for nm in labels:
-            body.insert(self.r.randint(0, len(body)), {"t": "label", "name": nm})
+            # half of the labels directly behind a (conditional) jump: tests that aim just past the next test / jump
+            spots = [i + 1 for i, s in enumerate(body) if s["t"] in ("if", "jump")]
+            at = self.r.choice(spots) if spots and self.r.random() < 0.5 else self.r.randint(0, len(body))
+            body.insert(at, {"t": "label", "name": nm})
             self.label_pool.append(nm)
         if self.r.random() < 0.6:
             body.append({"t": "ctrl", "k": self.r.choice(["return", "end", "hold"])})
